@@ -107,6 +107,7 @@ def run(ctx: Ctx) -> None:
     srcs = {'gen_%d' % i: progen.gen_program(rnd, rnd.randint(1, 2)).src for i in range(ctx.n(25, 600) * scale)}
     import shapes
     srcs.update(shapes.ALL)
+    srcs.update(shapes.TREES_ONLY)     # trees with entries that no node class accepts
     sess = tsession.Session(srcs)
     lark_roots = {}
     for name in list(srcs) + (['example.FW.string'] if not ctx.thorough else ['example.FW.string', 'example.json', 'rogw.tranp.compatible.libralies.classes']):
@@ -197,8 +198,13 @@ def run(ctx: Ctx) -> None:
                 got_siblings = nodes.siblings(p) if pos else None
             else:
                 # real Nodes resolve entries to Node objects: use their full_path
-                got_children = [c.full_path for c in nodes.children(p)]
-                got_siblings = [c.full_path for c in nodes.siblings(p)] if pos else None
+                try:
+                    got_children = [c.full_path for c in nodes.children(p)]
+                    got_siblings = [c.full_path for c in nodes.siblings(p)] if pos else None
+                except Errors.UnresolvedNode:
+                    if kind[5:] in shapes.TREES_ONLY:
+                        continue      # an entry that no node class accepts is among them: these queries have no answer
+                    raise
             if got_children != want_children:
                 ctx.violation('children', 'children query disagrees with the underlying tree', dict(input=dict(kind=kind, tree=raw if real_entry is None else None, source=srcs.get(kind[5:]), path=p), oracle_result=want_children, impl_result=got_children))
             if pos:
@@ -266,7 +272,7 @@ def run(ctx: Ctx) -> None:
 
     # ---- resolution order independence on real node resolvers ------------------------------------
     perms = ctx.n(3, 20)
-    names = list(srcs)[:ctx.n(8, 60)] + ['example.FW.string']
+    names = list(srcs)[:ctx.n(8, 60)] + list(shapes.TREES_ONLY) + ['shape_literals', 'example.FW.string']
     for name in names:
         ep, nodes, root_entry = lark_roots[name]
         paths = list(ASTFinder().full_pathfy(root_entry).keys())
@@ -285,6 +291,18 @@ def run(ctx: Ctx) -> None:
                 except Exception as e:
                     seen[p] = 'ERR:' + type(e).__name__
             ctx.evaluations += 1
+            # asked again in the same session, every path answers the same way (an instance, or the same failure)
+            again = {}
+            for p in order:
+                try:
+                    again[p] = type(n2.by(p)).__name__
+                except Exception as e:
+                    again[p] = 'ERR:' + type(e).__name__
+            if again != seen:
+                diff = [(p, seen[p], again[p]) for p in paths if again[p] != seen[p]][:5]
+                ctx.violation('resolve-order', 'the node class resolved for a path changes when the path is asked a second time',
+                              dict(input=dict(kind='lark:' + name, source=srcs.get(name), order=order[:200]), oracle_result=[d[:2] for d in diff], impl_result=diff))
+                break
             if base is None:
                 base = seen
             elif seen != base:
